@@ -16,7 +16,7 @@ def both(f):
     ViewBase.set_dtype(np.int64)
     return out
 buckets=collections.defaultdict(list)
-for it in range(20000):
+for it in range(int(__import__("os").environ.get("RECON_N", 20000))):
     rows=rand_rows(); rsel=rand_rsel(len(rows)); csel=rand_csel()
     def f():
         ra=RaggedArray(rows,dtype=np.int64)
@@ -49,7 +49,7 @@ ops = {
  'shape_dtype': lambda ra: str(ra.shape[1].dtype),
 }
 b2=collections.defaultdict(list)
-for it in range(5000):
+for it in range(int(__import__("os").environ.get("RECON_N", 5000))):
     rows=rand_rows()
     for name,fn in ops.items():
         if fn is None: continue
